@@ -60,6 +60,21 @@ DoWrap(st, op) ==
 
 DoDecor(st, op) == [st EXCEPT !.wr[op.w].dec = DecOf(op)]
 
+\* the decoration registry as the scenario sees it: the built-in names plus what it registered
+BuiltinDecorNames == {"ascii-simple", "none", "utf8-light", "utf8-light-curved", "utf8-heavy", "utf8-double"}
+DoRegDecor(st, op) == [st EXCEPT !.reg = [n \in DOMAIN st.reg \cup {op.name} |-> IF n = op.name THEN op.dec ELSE st.reg[n]]]
+
+EmptyDecRec == [boxless |-> 0, empty |-> 1]
+RegLookup(st, n) == IF n \in DOMAIN st.reg THEN st.reg[n] ELSE EmptyDecRec
+
+\* C17 (sequential part): selecting a decoration by name -- a registered name gives
+\* exactly what is registered under it (the latest), any other name an error and
+\* the empty decoration (so that rendering then fails)
+DecorByNameBad(st, op, res) ==
+  IF "name" \notin DOMAIN op \/ "err" \notin DOMAIN res THEN FALSE
+  ELSE IF op.name \in DOMAIN st.reg THEN op.dec # st.reg[op.name] \/ res.err # 0
+  ELSE op.dec.empty # 1 \/ res.err # 1
+
 DoHtmlOpts(st, op) ==
   [st EXCEPT !.wr[op.w].html = [id |-> op.id, class |-> op.class, caption |-> op.caption,
                                 gen |-> op.gen, genvals |-> op.genvals]]
@@ -82,6 +97,7 @@ Apply(st, op, fired) ==
   CASE op.op = "newtable" -> DoNewTableW(st, op)
     [] op.op = "wrap"     -> DoWrap(st, op)
     [] op.op = "decor"    -> DoDecor(st, op)
+    [] op.op = "regdecor" -> DoRegDecor(st, op)
     [] op.op = "htmlopts" -> DoHtmlOpts(st, op)
     [] op.op \in {"render", "faultsweep"} -> DoRender(st, op, fired)
     [] OTHER -> ApplyCore(st, op, fired)
@@ -536,6 +552,80 @@ EmitOK(st, t, fmt) ==
     [] OTHER -> TRUE
 
 -----------------------------------------------------------------------------
+(* The auto package: style strings (C19) *)
+
+LowerAlpha == "abcdefghijklmnopqrstuvwxyz"
+UpperAlpha == "ABCDEFGHIJKLMNOPQRSTUVWXYZ"
+LowerCh(c) == IF \E i \in 1..26 : Ch(UpperAlpha, i) = c
+              THEN Ch(LowerAlpha, CHOOSE i \in 1..26 : Ch(UpperAlpha, i) = c) ELSE c
+UpperCh(c) == IF \E i \in 1..26 : Ch(LowerAlpha, i) = c
+              THEN Ch(UpperAlpha, CHOOSE i \in 1..26 : Ch(LowerAlpha, i) = c) ELSE c
+RECURSIVE Lower(_)
+Lower(s) == IF s = "" THEN "" ELSE LowerCh(Ch(s, 1)) \o Lower(Drop(s, 1))
+RECURSIVE Upper(_)
+Upper(s) == IF s = "" THEN "" ELSE UpperCh(Ch(s, 1)) \o Upper(Drop(s, 1))
+
+DotPos(s) == IF \E i \in 1..Len(s) : Ch(s, i) = "." THEN CHOOSE i \in 1..Len(s) : Ch(s, i) = "." /\ \A j \in 1..(i - 1) : Ch(s, j) # "." ELSE 0
+Sec1(s) == IF DotPos(s) = 0 THEN s ELSE SubSeq(s, 1, DotPos(s) - 1)
+HasRest(s) == DotPos(s) # 0
+Rest(s) == Drop(s, DotPos(s))
+
+AutoKind(style) ==
+  LET f == Lower(Sec1(style)) IN
+  CASE f = "csv" -> "csv" [] f = "html" -> "html" [] f = "markdown" -> "md" [] f = "json" -> "json" [] OTHER -> "text"
+
+\* the decoration name a text style denotes: a registered name wins as a whole
+\* (names may contain dots), otherwise the section
+DecorNameOf(st, s) == IF s \in DOMAIN st.reg THEN s ELSE Sec1(s)
+
+\* operational resolution of the decoration of a text style (used by the bounded model)
+ResolveDec(st, style) ==
+  IF Lower(Sec1(style)) = "texttable"
+  THEN (IF ~HasRest(style) THEN st.defdec
+        ELSE IF style \in DOMAIN st.reg THEN st.reg[style]      \* a name registered as "texttable.x" is advertised as such
+        ELSE RegLookup(st, DecorNameOf(st, Rest(style))))
+  ELSE RegLookup(st, DecorNameOf(st, style))
+
+\* where the statement determines the decoration of a text style (it is silent
+\* about trailing sections after a decoration name that is not registered as a whole)
+DecDetermined(st, s) == s \in DOMAIN st.reg \/ ~HasRest(s)
+
+\* relation between a style string and what auto.New(style) turned out to be:
+\* a = [kind, hasdec, dec, status, empty]
+AutoBad(st, style, a) ==
+  LET k == AutoKind(style) IN
+  IF a.status = "panic" THEN {<<"panic">>}
+  ELSE IF a.kind # k THEN {<<"kind", k, a.kind>>}
+  ELSE IF k # "text" THEN (IF a.status # "ok" THEN {<<"a sub-package style does not render">>} ELSE {})
+  ELSE (IF a.hasdec # 1 THEN {<<"no decoration">>} ELSE {})
+       \cup (IF Lower(Sec1(style)) = "texttable"
+             THEN (IF ~HasRest(style) THEN (IF a.dec # st.defdec THEN {<<"plain texttable is not the default decoration">>} ELSE {})
+                   ELSE IF style \in DOMAIN st.reg
+                        THEN (IF a.dec # st.reg[style] THEN {<<"a listed name that starts with texttable. is not its decoration">>} ELSE {})
+                   ELSE IF DecDetermined(st, Rest(style)) /\ (a.dec.empty = 1) # (RegLookup(st, Rest(style)).empty = 1)
+                        THEN {<<"texttable.NAME: known-ness differs from NAME">>}
+                   ELSE IF DecDetermined(st, Rest(style)) /\ a.dec.empty = 0 /\ a.dec # RegLookup(st, Rest(style))
+                        THEN {<<"texttable.NAME is not NAME's decoration">>} ELSE {})
+             ELSE (IF DecDetermined(st, style) /\ (a.dec.empty = 1) # (RegLookup(st, style).empty = 1)
+                   THEN {<<"known-ness of the decoration name">>}
+                   ELSE IF DecDetermined(st, style) /\ a.dec.empty = 0 /\ a.dec # RegLookup(st, style)
+                        THEN {<<"not the registered decoration">>} ELSE {}))
+       \cup (IF a.dec.empty = 1 /\ ~(a.status = "error" /\ a.empty = 1) THEN {<<"unknown decoration renders">>} ELSE {})
+       \cup (IF a.dec.empty = 0 /\ a.status # "ok" THEN {<<"known decoration does not render">>} ELSE {})
+
+SubPackageStyles == {"csv", "html", "json", "markdown"}
+
+StylesBad(st, s) ==
+  (IF s.sorted # 1 THEN {<<"not sorted">>} ELSE {})
+  \cup {<<"missing", n>> : n \in (SubPackageStyles \cup DOMAIN st.reg) \ Range(s.list)}
+  \cup {<<"listed style does not render", s.each[i][1]>> : i \in {k \in DOMAIN s.each : s.each[k][3] # "ok"}}
+
+\* model level: every name the listing must contain resolves to something that renders
+Inv_C19(st) ==
+  \A n \in SubPackageStyles \cup DOMAIN st.reg :
+     AutoKind(n) # "text" \/ ResolveDec(st, n).empty = 0
+
+-----------------------------------------------------------------------------
 (* Results of calls *)
 
 RenderBad(s, ns, op, res) ==
@@ -568,9 +658,14 @@ BadResMore(s, ns, op, res) ==
        \cup (IF "same" \in DOMAIN res /\ res.same.match # 1 THEN {"res.same"} ELSE {})
        \* C14: the same bytes as the first render of this content, format and decoration
        \cup (IF "rep" \in DOMAIN res /\ res.rep.equal # 1 THEN {"res.rep"} ELSE {})
+       \* C16: the same bytes as when the same scenario ran alone
+       \cup (IF "solo" \in DOMAIN res /\ res.solo # 1 THEN {"res.solo"} ELSE {})
        \* the wrapper renders with the decoration that was last set on it
        \cup (IF "dec" \in DOMAIN res /\ "w" \in DOMAIN op /\ res.dec # s.wr[op.w].dec THEN {"res.dec"} ELSE {})
+  ELSE IF op.op = "decor" THEN (IF DecorByNameBad(s, op, res) THEN {"res.decor"} ELSE {})
   ELSE IF op.op = "renderall" THEN (IF AllBad(res) # {} THEN {"out.all"} ELSE {})
+  ELSE IF op.op = "autonew" THEN (IF AutoBad(s, op.style, res.auto) # {} THEN {"res.auto"} ELSE {})
+  ELSE IF op.op = "liststyles" THEN (IF StylesBad(s, res.styles) # {} THEN {"res.styles"} ELSE {})
   ELSE IF op.op = "faultsweep" THEN (IF FaultsBad(res) # {} THEN {"res.faults"} ELSE {})
   ELSE {}
 
@@ -602,6 +697,8 @@ ExplainMore(s, ns, op, f, res) ==
   ELSE IF f = "out.html" THEN HtmlBad(ns, RenderTbl(s, op), RenderHtml(s, op), res)
   ELSE IF f = "out.md" THEN MdBad(ns, RenderTbl(s, op), res)
   ELSE IF f = "out.all" THEN AllBad(res)
+  ELSE IF f = "res.auto" THEN AutoBad(s, op.style, res.auto)
+  ELSE IF f = "res.styles" THEN StylesBad(s, res.styles)
   ELSE IF f = "res.faults" THEN FaultsBad(res)
   ELSE {}
 =============================================================================
